@@ -5,7 +5,7 @@ from fractions import Fraction
 import vlib, fock
 
 CLAIM = {
- "text": "Proof (Lean 4), partial. Trimming: the classification table of trim_trivial_circuit (idle / one / two single-qubit gates) and the term rule of trim_trivial_operator are modelled exactly; proved for every register size, every state and every Pauli word: a qubit classified b is left in |b> by its gates (X, RX at an odd multiple of pi, Z, RZ on |0>), a word with X or Y on a qubit held in a basis state has pointwise zero overlap, a word with Z or I on such a qubit acts as (-1)^b or 1 times the word without that letter, and the string surgery with running offset equals deleting the trimmed positions. Truncation: the loop is modelled exactly over an ordered field; proved: the kept terms are a suffix of the sorted list and the squared coefficients of the discarded prefix sum to at most eps^2 / 2^n (so the discarded operator has Frobenius norm at most eps). Tapering: proved in any ring: for anticommuting involutions sigma, tau the operator U = (sigma + tau)/sqrt2 is an involution exchanging them, conjugation by U is a ring automorphism (products of such U too), an operator commuting with tau is rotated into one commuting with sigma, and eigenvectors of the rotated operator map to eigenvectors of the original with the same eigenvalue. NOT proved in Lean: Weyl's inequality and Frobenius >= operator norm (linear algebra over C), the GF(2) kernel / choice of single-qubit Paulis of the tapering code, sector retention; those are decided numerically: dense spectra of tapered vs. original operators and (N, S_z)-sector ground energies for molecules with random geometries and random symmetric Hamiltonians under JW/BK/JKMN and both orderings; expectation values before / after trimming on random circuits with idle, flipped, phase-only and two-gate qubits; sorted-spectrum shift <= eps for random and adversarial (coherent equal-coefficient stabiliser-group) operators on odd and even registers.",
+ "text": "Proof (Lean 4), partial. Trimming: the classification table of trim_trivial_circuit (idle / one / two single-qubit gates) and the term rule of trim_trivial_operator are modelled exactly; proved for every register size, every state and every Pauli word: a qubit classified b is left in |b> by its gates (X, RX at an odd multiple of pi, Z, RZ on |0>), a word with X or Y on a qubit held in a basis state has pointwise zero overlap, a word with Z or I on such a qubit acts as (-1)^b or 1 times the word without that letter, the string surgery for one trimmed qubit is the deletion of that position, and - end to end for the reindex=False form of trim_trivial_operator - for a state whose trimmed qubits (distinct) are in the recorded basis states, every term either vanishes together with its expectation value or becomes sign * term' with <psi|term|psi> = sign * <psi|term'|psi>, for every register size (induction over the trimmed qubits). The re-indexing of the remaining qubits (deleting positions from circuit and operator alike) is tied by the correspondence and the expectation-value oracle only. Truncation: the loop is modelled exactly over an ordered field; proved: the kept terms are a suffix of the sorted list and the squared coefficients of the discarded prefix sum to at most eps^2 / 2^n (so the discarded operator has Frobenius norm at most eps). Tapering: proved in any ring: for anticommuting involutions sigma, tau the operator U = (sigma + tau)/sqrt2 is an involution exchanging them, conjugation by U is a ring automorphism (products of such U too), an operator commuting with tau is rotated into one commuting with sigma, and eigenvectors of the rotated operator map to eigenvectors of the original with the same eigenvalue. NOT proved in Lean: Weyl's inequality and Frobenius >= operator norm (linear algebra over C), the GF(2) kernel / choice of single-qubit Paulis of the tapering code, sector retention; those are decided numerically: dense spectra of tapered vs. original operators and (N, S_z)-sector ground energies for molecules with random geometries and random symmetric Hamiltonians under JW/BK/JKMN and both orderings; expectation values before / after trimming on random circuits with idle, flipped, phase-only and two-gate qubits; sorted-spectrum shift <= eps for random and adversarial (coherent equal-coefficient stabiliser-group) operators on odd and even registers.",
  "note": "Trusted: Lean kernel + standard axioms; numpy eigensolvers; PySCF integrals; float comparisons of the code (odd-multiple-of-pi test with atol 1e-5, sqrt comparison) are abstracted as exact decisions and unstable cases discarded.",
  "technique": "Lean 4 theorems (trimming soundness on the register semantics, truncation budget invariant, Clifford-rotation algebra) + model/code correspondence for trimming and truncation + dense-spectrum oracle for tapering, trimming and truncation"}
 
